@@ -6,7 +6,7 @@ LEVEL = "model_checking"
 
 def run(ctx, res):
     ctx.build()
-    res.rule = ("F: TLC enumerates the bounded grammar of Gen_Find (27 families, 222 944 patterns over letters a,b; quantifier operands may be nullable) and predicts "
+    res.rule = ("F: TLC enumerates the bounded grammar of Gen_Find (28 families, 225 536 patterns over letters a,b; quantifier operands may be nullable or quantified) and predicts "
                 "RegexSem.Find for every input string over the alphabet up to the length bound and every start offset; the "
                 "replayer compares index, length and complete capture lists. B: random source ASTs of the C01 fragment "
                 "(depth<=4, node budget) x option sets from {i,m,s,n,x,RE2} x pattern-directed inputs (<=12 runes; newlines, "
